@@ -28,6 +28,11 @@ def gen_problem(r, max_cells=200, with_zeros=None, nmeas=None):
             allc = list(itertools.product(*[range(sizes[a]) for a in zc]))
             k = r.randint(1, max(1, len(allc) // 2))
             zeros[tuple(zc)] = r.sample(allc, min(k, len(allc) - 1))
+        if r.random() < 0.2:
+            # a zero specification built programmatically may declare NOTHING for a group: an empty list of cells is a legal value
+            zc = tuple(r.sample(attrs, r.randint(1, min(2, n))))
+            if zc not in zeros:
+                zeros[zc] = []
         # true table respects the zeros
         for x in list(table):
             for zc, zs in zeros.items():
